@@ -89,8 +89,11 @@ Qed.
 (* ---- per definition ------------------------------------------------------------ *)
 
 (* the findings of a definition are a function of its own source and of the
-   answers to the lookups its passes make *)
-Theorem findings_function_of_answers : forall ds1 ds2 d,
+   answers to the lookups its passes make.  DEFINITIONAL: [inst] hands [s_pass]
+   nothing but [map (answer_of ds) (s_refs d)]; this is the interface of
+   Model.RunnerSrc restated, a lemma for what follows and not a property theorem
+   (the assumption it restates is evaluated by check (3) of lib/props/C17.py). *)
+Lemma findings_function_of_answers : forall ds1 ds2 d,
   same_answers ds1 ds2 d -> findings ds1 d = findings ds2 d.
 Proof.
   intros ds1 ds2 d H. unfold findings, produced_def, inst. simpl.
@@ -108,7 +111,9 @@ Qed.
 Lemma not_reached_not_looked_up : forall ds d x, In x ds -> ~ reaches ds d x -> ~ looks_up d x.
 Proof. intros ds d x Hin Hn Hl. apply Hn. apply reach_step; assumption. Qed.
 
-Corollary findings_unchanged_outside_transitive_lookups : forall ds extra d,
+(* weaker than the previous statement (a definition outside the transitive lookup
+   set is in particular not looked up directly): a lemma, not an obligation *)
+Lemma findings_unchanged_outside_transitive_lookups : forall ds extra d,
   (forall x, In x extra -> ~ reaches (ds ++ extra) d x) ->
   findings (ds ++ extra) d = findings ds d.
 Proof.
